@@ -507,6 +507,31 @@ def r11_load_preference(idx, r):
         r.require((f"{f.params()[1]} is not None", False) in conds or (f"{f.params()[1]} is None", True) in conds, "reload-only-without-file", f, node=y, msg="the reload database is a fall-back only when no file was named")
 
 
+def r12_label_forwarded(idx, r):
+    """A snapshot is identified by (cycle, node, label).  DatabaseInterface.loadState looks for the database that HAS the labelled snapshot
+    and must then load THAT snapshot: the label tested in hasTimeStep is the label handed to load."""
+    f = idx.method(DBI, "loadState")
+    has = [c for c in iter_calls(f.node) if call_attr(c) == "hasTimeStep"]
+    ld = [c for c in iter_calls(f.node) if call_attr(c) == "load" and norm(c.func.value) == (norm(has[0].func.value) if has else "")]
+    if len(has) != 1 or len(ld) != 1:
+        raise AnchorMissing("DatabaseInterface.loadState: hasTimeStep(...) and load(...) on the same database")
+    lab = get_arg(has[0], 2, "statePointName")
+    lab2 = get_arg(ld[0], 2, "statePointName")
+    r.require(lab is not None and lab2 is not None and norm(lab) == norm(lab2), "loadState:label-tested-is-label-loaded", f, node=ld[0],
+              msg=f"the presence of snapshot label `{norm(lab) if lab is not None else None}` is tested but load() is given `{norm(lab2) if lab2 is not None else 'no label'}`: a request for a labelled "
+                  "snapshot silently loads the un-labelled snapshot of the same (cycle, node)")
+    for k in (0, 1):
+        a, b = get_arg(has[0], k, None), get_arg(ld[0], k, None)
+        r.require(a is not None and b is not None and norm(a) == norm(b), f"loadState:arg{k}-same", f, node=ld[0], msg="the (cycle, node) tested is the (cycle, node) loaded")
+
+
+def r13_every_interface_reached(idx, r):
+    """The database interface writes its snapshots from interaction hooks like any other interface: whatever an interface ahead of it in the
+    stack returns, its hook must still be called at every event (shared with R15.3)."""
+    from .c15 import r3_hook_unconditional
+    r3_hook_unconditional(idx, r)
+
+
 def run(idx, chk):
     chk.explanation = (
         "C06: writers of the successfulCompletion flag and callers that can pass a true value; the chain Case.run -> Operator.__exit__ -> "
@@ -534,3 +559,7 @@ def run(idx, chk):
                  necessary="a parameter history returns for each step the value (or None/default if unset) that the same object had at that step")
     chk.run_rule("R06.11", "without a named file, the database being written is preferred over the reload database", lambda r: r11_load_preference(idx, r), floor=2,
                  necessary="loading a snapshot returns the state as of that write")
+    chk.run_rule("R06.12", "loadState loads exactly the (cycle, node, label) whose presence it tested", lambda r: r12_label_forwarded(idx, r), floor=3,
+                 necessary="loading a snapshot returns the state as of that write")
+    chk.run_rule("R06.13", "every interface's hook is called at every event whatever earlier interfaces return (the database writes from its hook)", lambda r: r13_every_interface_reached(idx, r), floor=3,
+                 necessary="a completed run holds every node plus the end-of-life state")
